@@ -141,3 +141,29 @@ pub enum CbNamedSkip {
     #[regex("[0-9]+", named::bumping::skip)] Bump(u32),
     #[token(" ")] Sp,
 }
+
+// a callback that bumps and then asks for the match to be skipped: the bumped bytes belong to the skipped
+// region and must not be lexed again
+fn decide_bump_skip<'s, T: Logos<'s, Source = str>>(lex: &mut Lexer<'s, T>) -> Filter<u32> {
+    let _ = k_of(lex);
+    let want = lex.slice().as_bytes().iter().map(|b| *b as usize).sum::<usize>() % 3;
+    let rem = lex.remainder();
+    if want <= rem.len() && rem.is_char_boundary(want) { lex.bump(want); }
+    Filter::Skip
+}
+fn decide_bump_skip_unit<'s, T: Logos<'s, Source = str>>(lex: &mut Lexer<'s, T>) {
+    let _ = k_of(lex);
+    let want = lex.slice().as_bytes().iter().map(|b| *b as usize).sum::<usize>() % 3;
+    let rem = lex.remainder();
+    if want <= rem.len() && rem.is_char_boundary(want) { lex.bump(want); }
+}
+
+#[derive(Logos, Debug, PartialEq, Clone)]
+#[logos(error = LexErr)]
+#[logos(skip("#[0-9]*", decide_bump_skip_unit))]
+pub enum CbBumpSkip {
+    #[regex("[0-9]+", decide_bump_skip)] Num(u32),
+    #[regex("[a-z]+")] Word,
+    #[token(" ")] Sp,
+    #[token("!")] Bang,
+}
